@@ -235,8 +235,9 @@ def check(pid: str, tier: str, seed: int, replay_path: str = None) -> int:
             ],
             "wall_s": round(time.time() - t0, 2), "violations": len(violations),
         }
-        os.makedirs(os.path.join(VERIF, "evidence"), exist_ok=True)
-        with open(os.path.join(VERIF, "evidence", pid + ".json"), "w") as fh:
+        evdir = os.environ.get("VERIF_EVIDENCE_DIR") or os.path.join(VERIF, "evidence")
+        os.makedirs(evdir, exist_ok=True)
+        with open(os.path.join(evdir, pid + ".json"), "w") as fh:
             json.dump(evidence, fh, indent=1, default=str)
         for line in out_lines:
             print(line)
